@@ -84,6 +84,11 @@ def generate(rng, tier):
         for c in itertools.product(alpha2, repeat=n):
             k += 1
             out.append((case(list(c), OFFSETS[k % 3]), {"stream": "enumerated-utf8"}))
+    # word boundary: a word followed by every possible byte value (MatchWord's isWordCharacter is a predicate on bytes)
+    for b in range(256):
+        k += 1
+        out.append((case([116, 114, 117, 101, b, 120], OFFSETS[k % 3], words=[[116, 114, 117, 101], [116, 114]]),
+                    {"stream": "word-boundary-bytes"}))
     # random longer files
     for _ in range(200 if tier == "quick" else 2000):
         raw = []
